@@ -25,7 +25,8 @@ MUTABLE = ('BitArray', 'BitStream')
 STREAM = ('ConstBitStream', 'BitStream')
 ROUTES = ('bin', 'hex', 'oct', 'token', 'token_hit', 'bytes', 'bytes_win', 'bytearray', 'memoryview', 'bools', 'bitarray',
           'bitarray_win', 'bitarray_le', 'bitarray_win_le', 'array', 'bytesio', 'bytesio_win', 'slice', 'slice_step', 'copy', 'ctor_of_other', 'file', 'file', 'file_len',
-          'file_len', 'file_off', 'file_off_len', 'handle', 'handle_len', 'handle_off', 'fromstring', 'join', 'pack', 'int_zeros', 'uint_kw')
+          'file_len', 'file_off', 'file_off_len', 'handle', 'handle_len', 'handle_off', 'fromstring', 'join', 'pack', 'int_zeros', 'uint_kw',
+          'iter_gen', 'iter_objs', 'iter_iterator')
 FILE_ROUTES = ('file', 'file_len', 'file_off', 'file_off_len', 'handle', 'handle_len', 'handle_off')
 
 READ_OPS = ('len', 'bool', 'iter', 'getitem', 'getslice', 'add', 'radd', 'mul', 'rmul', 'invert', 'lshift', 'rshift', 'and', 'or', 'xor',
@@ -61,12 +62,26 @@ class ERoute(Engine):
                    'C17 / C15)', 'little-endian host only', 'repr() of a file-backed object names its file by design and '
                    'is compared only for other routes']
     expected_probes = ('file_route_with_slack_bytes', 'file_route_length_shorter_than_file', 'op_on_file_backed_lazy',
-                       'mutator_on_file_derived', 'env_unlink_then_op', 'lsb0_pair', 'cache_hit_route', 'op_after_toggle')
+                       'mutator_on_file_derived', 'env_unlink_then_op', 'lsb0_pair', 'cache_hit_route', 'op_after_toggle', 'big_file_pair')
 
     def plan(self, tier, base_seed):
-        return self.seeded_plan(tier, base_seed, quick=(24000, 28), thorough=(1500000, 50))
+        descs = self.seeded_plan(tier, base_seed, quick=(24000, 28), thorough=(1500000, 50))
+        # a few pairs over a file of a little more than 2 MiB with a marker laid across every power-of-two byte boundary
+        # from 4 KiB up: whatever piece size a reader works in, some marker straddles two pieces
+        nbig = 16 if tier == 'quick' else 640
+        step = max(1, len(descs) // nbig)
+        for j in range(nbig):
+            d = dict(descs[min(j * step, len(descs) - 1)])
+            d['seed'] = d['seed'] + 500_000_000
+            d['big'] = True
+            d['n'] = 24
+            descs.insert(min(j * step, len(descs)), d)
+        return descs
 
     def config(self, g, desc):
+        if desc.get('big'):
+            return {'avoid': False, 'big': True, 'route': g.pick(['file', 'handle', 'file_len', 'file_off']), 'cls': g.pick(CLASSES), 'bits': '', 'lsb0': False,
+                    'off': g.pick([8, 16, 3]), 'slack': g.pick([0, 1, 3]), 'toggle_w': 0, 'env_w': g.pick([0, 1]), 'cut': g.pick([0, 0, 5, 8])}
         route = g.pick(ROUTES)
         big = g.chance(0.06)
         n = g.pick([8191 * 8, 8192 * 8, 8193 * 8]) // 8 if big and route in FILE_ROUTES else g.length(80)
@@ -91,6 +106,7 @@ class ERoute(Engine):
             self.probe('lsb0_pair')
         cls = cfg.get('cls') if cfg.get('cls') in CLASSES else 'Bits'
         self.cls = cls
+        self.init_incs = []
         st, x = call(self._build, cfg, cls)
         if st != 'ok':
             # construction failures are C15 / C17 territory; fall back to a plain pair so the run is still valid
@@ -101,8 +117,13 @@ class ERoute(Engine):
         return {'route': cfg.get('route'), 'built': st, 'len': len(kernel.safe_bin(x))}
 
     def _twin(self, x):
-        b = x.bin
         C = getattr(self.B, self.cls)
+        if self.cfg.get('big'):
+            t = C(bytes=x.tobytes(), length=len(x))
+            if kernel.is_stream(x):
+                kernel.set_pos(t, kernel.get_pos(x))
+            return t
+        b = x.bin
         t = C(bin=b) if b else C()
         if kernel.is_stream(x):
             kernel.set_pos(t, kernel.get_pos(x))
@@ -116,6 +137,26 @@ class ERoute(Engine):
         off = int(cfg.get('off', 0)) if isinstance(cfg.get('off', 0), int) else 0
         n = len(bits)
         comp = ''.join('1' if c == '0' else '0' for c in bits)
+
+        if cfg.get('big'):
+            size = (1 << 21) + 4096 + 3
+            data = bytearray(size)
+            self.markers = []
+            for k in range(12, 22):
+                m = bytes([0xA5, k, 0x5A, 0xC3])
+                data[(1 << k) - 2:(1 << k) + 2] = m
+                self.markers.append(((1 << k) - 2, m))
+            slack = max(0, int(cfg.get('slack', 0)))
+            self.path = self.fs.new_file(bytes(data) + b'\xff' * slack)
+            self.probe('big_file_pair')
+            cut = int(cfg.get('cut', 0)) if isinstance(cfg.get('cut', 0), int) else 0
+            if route == 'file':
+                return C(filename=self.path)
+            if route == 'handle':
+                return _with_handle(self.path, lambda h: C(h))
+            if route == 'file_off':
+                return C(filename=self.path, offset=off)
+            return C(filename=self.path, length=8 * size - cut)
 
         def filedata(prefix_bits, body_bits):
             """File bytes: prefix + body; the rest of the last byte and `slack` further bytes are the complement pattern."""
@@ -151,6 +192,18 @@ class ERoute(Engine):
             return C(_ba.bitarray(bits))
         if route == 'bitarray_win':
             return C(bitarray=_ba.bitarray('1' * off + bits + '01'), offset=off, length=n)
+        if route in ('iter_gen', 'iter_objs', 'iter_iterator'):
+            # an iterable of arbitrary objects taken by truth value - as a list, as a generator and as a one-shot iterator:
+            # the three hand over the same items, so they must build the same bits
+            truthy = (1, True, 5, -1, 'a', 2.5, (0,), b'x')
+            falsy = (0, False, 0.0, '', (), None, b'')
+            items = [(truthy if c == '1' else falsy)[(i * 7 + n) % (len(truthy) if c == '1' else len(falsy))] for i, c in enumerate(bits)]
+            x = C(items) if route == 'iter_objs' else C(v for v in items) if route == 'iter_gen' else C(iter(items))
+            st_, ref = call(lambda: C(list(items)).bin)
+            if st_ != 'ok' or ref != x.bin or x.bin != bits:
+                self.init_incs.append(self.inc(f'route={route}|construct|differs-from-the-same-items-as-a-list', items=[repr(v) for v in items][:40],
+                                               got=x.bin[:100], as_list=ref[:100] if st_ == 'ok' else kernel.exc_name(ref)))
+            return x
         if route == 'bitarray_le':
             # the same bit sequence held by a bitarray of the other (little-endian) storage order
             return C(_ba.bitarray(bits, endian='little'))
@@ -229,6 +282,8 @@ class ERoute(Engine):
             return {'k': 'env', 'what': g.pick(['unlink', 'append', 'rewrite_tail'])}
         if r < 0.03 * cfg['toggle_w'] + 0.03 * cfg['env_w'] + 0.02:
             return {'k': 'cache_clear'}
+        if cfg.get('big'):
+            return self._gen_big(g)
         n = len(kernel.safe_bin(self.X))
         ops = list(READ_OPS) * 2
         if self.cls in STREAM:
@@ -259,6 +314,40 @@ class ERoute(Engine):
             ev['name'] = g.pick(['uint', 'int', 'hex', 'bin', 'bytes', 'float', 'u8', 'bits'])
         if op == 'byteswap':
             ev['fmt'] = g.pick([None, 0, 1, 2, [1, 2], 'h', '<2b'])
+        return ev
+
+    def _gen_big(self, g):
+        """Searches and small reads round the planted markers of a big file-backed pair."""
+        n = len(self.X)
+        shift = int(self.cfg.get('off', 0)) if self.cfg.get('route') == 'file_off' else 0
+        if not hasattr(self, 'sweep'):
+            # directed start of every big run: each marker searched for over the whole object, from either end, byte-aligned or not
+            self.sweep = []
+            for bp, m_ in self.markers:
+                mb = ''.join(format(b, '08b') for b in m_)
+                how = g.pick(['findall', 'find', 'rfind', 'contains'])
+                self.sweep.append({'k': 'op', 'op': how, 'bits': g.pick([mb, mb, mb[8:], mb[:24]]), 'a': None, 'b': None, 'c': None, 'idx': 0, 'n': 0,
+                                   'ba': g.pick([True, True, None, False]), 'count': None, 'value': 1, 'poslist': []})
+            g.r.shuffle(self.sweep)
+        if self.sweep:
+            return self.sweep.pop()
+        bytepos, m = g.pick(self.markers)
+        mbits = ''.join(format(b, '08b') for b in m)
+        at = 8 * bytepos - shift                      # where the marker starts in the object
+        op = g.pick(['find', 'find', 'rfind', 'findall', 'findall', 'contains', 'count', 'getslice', 'startswith', 'readto', 'read', 'len', 'hash_eq'] if self.cls in STREAM
+                    else ['find', 'find', 'rfind', 'findall', 'findall', 'contains', 'count', 'getslice', 'startswith', 'len', 'hash_eq'])
+        sub = g.pick([mbits, mbits, mbits[8:], mbits[:24], mbits[3:29], mbits[8:24]])
+        ev = {'k': 'op', 'op': op, 'bits': sub, 'a': g.pick([None, None, 0, max(at - 64, 0), max(at - 8 * 4096, 0), at, at + 1]),
+              'b': g.pick([None, None, None, min(at + 64, n), n]), 'c': None, 'idx': max(at, 0), 'n': 0, 'ba': g.pick([None, True, True, False]),
+              'count': g.pick([None, 1, 2, 3]), 'value': 1, 'poslist': []}
+        if op == 'getslice':
+            ev.update(a=max(at - g.int(0, 24), 0), b=min(at + g.int(8, 72), n), c=g.pick([None, None, 2, -1]))
+        if op == 'count':
+            ev['value'] = g.pick([0, 1])
+        if op == 'read':
+            ev['fmt'] = g.pick([32, 'hex:32', 'uint:24', 'bytes:4'])
+        if op in ('readto', 'read') and g.chance(0.6):
+            ev['seek'] = max(at - g.pick([0, 8, 16, 32768]), 0)
         return ev
 
     # -------------------------------------------------------------------------------------------------
@@ -484,6 +573,9 @@ class ERoute(Engine):
             return {'env': what}, self._compare_state('env', ev)
         if k != 'op':
             return {'skip': k}, []
+        if self.init_incs:
+            incs0, self.init_incs = self.init_incs, []
+            return {'init': len(incs0)}, incs0
         op = ev.get('op')
         if op in MUT_OPS and self.cls not in MUTABLE:
             return {'skip': 'immutable'}, []
@@ -498,6 +590,9 @@ class ERoute(Engine):
                 self.probe('env_unlink_then_op')
         if self.toggled:
             self.probe('op_after_toggle')
+        if self.cfg.get('big') and ev.get('seek') is not None and self.cls in STREAM:
+            for o_ in (self.X, self.T):
+                kernel.set_pos(o_, min(max(int(ev['seek']), 0), len(o_)))
         stx, vx = call(self._do, self.X, ev, self.T)
         stt, vt = call(self._do, self.T, ev, self.X)
         ox = canon(vx) if stx == 'ok' else {'exc': kernel.exc_name(vx)}
